@@ -163,7 +163,15 @@ def taint_sinks(prog, f, h, res, rule='R1'):
                            or t.endswith('out_string') or
                            t.endswith('out_document') or
                            t.endswith('out_object') for t in tt):
-                        verdict = ('leak', 'stored into ' + ', '.join(tt))
+                        from .. import guardspec as _gs
+                        if isinstance(p.value, ast.Name) and any(
+                                tx.startswith('isinstance(%s, ' % p.value.id)
+                                and 'Fault' in tx and pol
+                                for tx, pol in _gs.atoms_at(p, f.node)):
+                            verdict = ('ok', 'stored as it is only where it '
+                                       'is a Fault')
+                        else:
+                            verdict = ('leak', 'stored into ' + ', '.join(tt))
                     elif any(t.endswith('wsdl_error') for t in tt):
                         verdict = ('ok', 'kept on the transport context for '
                                    'the wsdl_exception event, never '
@@ -565,7 +573,11 @@ def rule_r4_r7(prog, res, tier):
                     kind = 'copied from ' + v.attr
                 elif isinstance(v, ast.Name) and h is not None and \
                         h.name == v.id:
-                    if not handler_catches_nonfault(prog, f, h):
+                    from .. import guardspec as _gs
+                    if not handler_catches_nonfault(prog, f, h) or any(
+                            tx.startswith('isinstance(%s, ' % v.id) and
+                            'Fault' in tx and pol
+                            for tx, pol in _gs.atoms_at(n, f.node)):
                         kind = 'the caught Fault'
                         n4 += 1
                         res.ob('R4', where, '%s: except %s as %s: out_error '
@@ -1217,6 +1229,67 @@ def rule_r13(prog, res):
     res.floor('R13', 'marker tests in the SOAP 1.2 fault writer', n, 1)
 
 
+# ------------------------------------------------------------------ R14
+def rule_r14(prog, res):
+    res.rule('R14', 'an exception raised while the response is serialized '
+             'keeps its class when it is a Fault, and the error response is '
+             'built from scratch (nothing of the abandoned response stays in '
+             'out_document / out_string)')
+    w = prog.cls('spyne.server.wsgi:WsgiApplication')
+    f = w.methods.get('handle_rpc')
+    n = 0
+    for t in walk_no_defs(f.node):
+        if not isinstance(t, ast.Try):
+            continue
+        for h in t.handlers:
+            if h.type is None or unparse(h.type) not in ('Exception',
+                                                         'BaseException'):
+                continue
+            if not any(call_name(x) == 'handle_error' for st in h.body
+                       for x in ast.walk(st) if isinstance(x, ast.Call)):
+                continue
+            n += 1
+            keeps = any(isinstance(a, ast.Assign) and any(
+                unparse(tg).endswith('.out_error') for tg in a.targets) and
+                isinstance(a.value, ast.Name) and a.value.id == h.name
+                for st in h.body for a in ast.walk(st))
+            where = '%s:%d' % (f.module.relpath, h.lineno)
+            res.ob('R14', where, 'handler of %s %s a Fault as it is' % (
+                unparse(t.body[0])[:40], 'keeps' if keeps else
+                'does not keep'), 'ok' if keeps else 'VIOLATED')
+            if not keeps:
+                res.finding('R14', 'WsgiApplication.handle_rpc|fault-'
+                            'reclassified|%d' % n, where, 'the handler '
+                            'replaces whatever was raised by a generic Server '
+                            'fault: a Fault raised by lazily run user code '
+                            '(a generator result, a lazy serializer) reaches '
+                            'the client as Server / Internal Error with '
+                            'status 500 instead of its own code, message and '
+                            'detail')
+            serializes = any(call_name(c) == 'get_out_string'
+                             for st in t.body for c in ast.walk(st)
+                             if isinstance(c, ast.Call))
+            if serializes:
+                resets = {unparse(tg).split('.')[-1] for st in h.body
+                          for a in ast.walk(st) if isinstance(a, ast.Assign)
+                          and isinstance(a.value, ast.Constant) and
+                          a.value.value is None for tg in a.targets}
+                ok = 'out_document' in resets and 'out_string' in resets
+                res.ob('R14', where, 'handler resets %s before the error '
+                       'response is built' % sorted(resets),
+                       'ok' if ok else 'VIOLATED')
+                if not ok:
+                    res.finding('R14', 'WsgiApplication.handle_rpc|stale-'
+                                'response', where, 'the handler goes to '
+                                'handle_error without clearing out_document '
+                                'and out_string: get_out_string serializes '
+                                'only when out_document is None, so the '
+                                'half-built response (an empty SOAP Envelope, '
+                                'or the method\'s return value) is sent with '
+                                'the error status instead of the fault')
+    res.floor('R14', 'funnelling handlers in handle_rpc', n, 2)
+
+
 def run(prog, res, tier):
     res.run_rule(rule_r8, prog, res)
     res.run_rule(rule_r1, prog, res, tier)
@@ -1230,6 +1303,7 @@ def run(prog, res, tier):
     res.run_rule(rule_r11, prog, res)
     res.run_rule(rule_r12, prog, res)
     res.run_rule(rule_r13, prog, res)
+    res.run_rule(rule_r14, prog, res)
 
 
 _A = 'spyne/application.py'
@@ -1240,6 +1314,10 @@ _H = 'spyne/protocol/dictdoc/hier.py'
 _F = 'spyne/model/fault.py'
 
 MUTANTS = [
+    Mutant('error-response-keeps-half-built-document', 'R14', 'fire', _W,
+           in_func('WsgiApplication.handle_rpc',
+                   "            p_ctx.out_document = None\n", ""),
+           'stale-response'),
     Mutant('subcode-marker-none', 'R13', 'fire',
            'spyne/protocol/soap/soap12.py',
            in_func('Soap12._fault_to_parent_impl',
@@ -1328,10 +1406,23 @@ MUTANTS = [
                    r"detail={'exc': repr(e)})", regex=True), 'leak'),
     Mutant('leak-traceback', 'R1', 'fire', _W,
            in_func('WsgiApplication.handle_rpc',
-                   "p_ctx.out_error = Fault('Server', "
-                   "get_fault_string_from_exception(e))",
-                   "import traceback\n            p_ctx.out_error = "
-                   "Fault('Server', traceback.format_exc())"), ''),
+                   r"(        except Exception as e:\n            logger\."
+                   r"exception\(e\)\n            if isinstance\(e, Fault\):"
+                   r"\n                p_ctx\.out_error = e\n            "
+                   r"else:\n)                p_ctx\.out_error = Fault\('Server'"
+                   r",\n\s+get_fault_string_from_exception\(e\)\)",
+                   lambda m_: m_.group(1) + "                import traceback"
+                   "\n                p_ctx.out_error = Fault('Server', "
+                   "traceback.format_exc())", regex=True), ''),
+    Mutant('lazy-serialization-error-stored-raw', 'R7', 'fire', _W,
+           in_func('WsgiApplication.handle_rpc',
+                   r"(        except Exception as e:\n            logger\."
+                   r"exception\(e\)\n)            if isinstance\(e, Fault\):"
+                   r"\n                p_ctx\.out_error = e\n            "
+                   r"else:\n                p_ctx\.out_error = Fault\('Server'"
+                   r",\n\s+get_fault_string_from_exception\(e\)\)",
+                   lambda m_: m_.group(1) + "            p_ctx.out_error = e",
+                   regex=True), 'non-fault'),
     Mutant('default-string-formats-exception', 'R1', 'fire', _A,
            in_func('get_fault_string_from_exception',
                    'return "Internal Error"',
